@@ -166,8 +166,7 @@ func c12(r *core.Report) {
 					continue
 				}
 				// returns reachable from the case block without crossing another select
-				reach := core.Reach(fn, blk.Instrs[0], nil, func(in ssa.Instruction) bool { _, k := in.(*ssa.Select); return k })
-				reach[blk.Instrs[0]] = true
+				reach := core.ReachAt(fn, blk.Instrs[0], nil, func(in ssa.Instruction) bool { _, k := in.(*ssa.Select); return k })
 				for _, ret := range core.Returns(fn) {
 					if !reach[ret] {
 						continue
